@@ -4,6 +4,7 @@
 id=$1; chk=$2; shift 2
 wt=/tmp/tryseed-$$
 git -C /repo worktree add -q $wt HEAD || exit 3
-(cd $wt && git apply /verif/seeded/$id/patch.diff) || { git -C /repo worktree remove --force $wt; exit 3; }
+case "$id" in */*) patch=$id;; *) patch=/verif/seeded/$id/patch.diff;; esac
+(cd $wt && git apply $patch) || { git -C /repo worktree remove --force $wt; exit 3; }
 VERIF_REPO=$wt VERIF_NO_EVIDENCE=1 /verif/.venv/bin/python /verif/run.py $chk --tier ${TIER:-quick} "$@" 2>&1 | grep -v "^\[" | cut -c1-${CUT:-330} | head -${HEAD:-12}
 git -C /repo worktree remove --force $wt
